@@ -509,6 +509,13 @@ impl StorageEngine {
         if dropping_guard.contains(kg) {
             return Err(StorageError::KnowledgeGraphNotFound(kg.to_string()));
         }
+        // The knowledge graph must (still) exist now that the guard is held: a drop that
+        // completed before the guard was taken has already removed it and deleted its shards,
+        // and nothing may be persisted for it any more. While the guard is held no drop can
+        // set its tombstone, so a shard written below is always seen by the drop's cleanup.
+        if !self.knowledge_graphs.contains_key(kg) {
+            return Err(StorageError::KnowledgeGraphNotFound(kg.to_string()));
+        }
 
         // Generate shard name and logical time
         let shard = format!("{kg}:{relation}");
@@ -624,6 +631,13 @@ impl StorageEngine {
         // Hold dropping_kgs read guard across the persist operation (same as insert)
         let dropping_guard = self.dropping_kgs.read();
         if dropping_guard.contains(kg) {
+            return Err(StorageError::KnowledgeGraphNotFound(kg.to_string()));
+        }
+        // The knowledge graph must (still) exist now that the guard is held: a drop that
+        // completed before the guard was taken has already removed it and deleted its shards,
+        // and nothing may be persisted for it any more. While the guard is held no drop can
+        // set its tombstone, so a shard written below is always seen by the drop's cleanup.
+        if !self.knowledge_graphs.contains_key(kg) {
             return Err(StorageError::KnowledgeGraphNotFound(kg.to_string()));
         }
 
